@@ -1,3 +1,5 @@
+from io import StringIO
+
 from ._lammps_writeTABLE import writePotentials as lmp_writePotentials
 from ._dlpoly_writeTABLE import writePotentials as dlpoly_writePotentials
 
@@ -124,9 +126,12 @@ class GULP_PairTabulation(PairTabulation_AbstractBase):
     """Write tabulation to the file object `fp`.
 
     :param fp: File object into which data should be written."""
-    
+
+    # Build the whole table in memory so that a failure part-way through leaves nothing in fp.
+    sbuild = StringIO()
     for pot in self.potentials:
-      self._write_pot(pot, fp)
+      self._write_pot(pot, sbuild)
+    fp.write(sbuild.getvalue())
 
   def _write_pot(self, pot, fp):
     header_template = u"{speciesA} {speciesB} {cutoff}\n"
